@@ -274,7 +274,7 @@ def BigCand (a b T q D : Nat) : Prop :=
 
 theorem pure_correct {a b q : Nat} (S : Setup a b (10 ^ t.kappa.toNat) q) (e E0 : Int) (hq2 : q < 2 ^ prec t)
     (hwin : (e < t.fcPmHalfLower ∨ e > t.divBy5Threshold) → ¬ b ∣ (2 * q - 1) * a) :
-    (∃ s, BigCand a b (10 ^ t.kappa.toNat) q s ∧ (∀ D, BigCand a b (10 ^ t.kappa.toNat) q D → D = s) ∧ s < 2 ^ 56
+    (∃ s, BigCand a b (10 ^ t.kappa.toNat) q s ∧ (∀ D, BigCand a b (10 ^ t.kappa.toNat) q D → D = s) ∧ s < 2 ^ prec t
         ∧ pureBody t q e E0 ((2 * q + 1) * a / b) (2 * a / b) (decide (b ∣ (2 * q + 1) * a))
             (decide ((2 * q - 1) * a / b % 2 = 1), decide (b ∣ (2 * q - 1) * a))
             (decide (2 * q * a / b % 2 = 1), decide (b ∣ 2 * q * a))
@@ -294,6 +294,8 @@ theorem pure_correct {a b q : Nat} (S : Setup a b (10 ^ t.kappa.toNat) q) (e E0 
   have hB0 : 0 < 10 * T := by rcases hT with rfl | rfl <;> decide
   have hdm := Nat.div_add_mod ((2 * q + 1) * a / b) (10 * T)
   have hrB := Nat.mod_lt ((2 * q + 1) * a / b) hB0
+  have hsp : (2 * q + 1) * a / b / (10 * T) < 2 ^ prec t := by
+    rw [Nat.div_lt_iff_lt_mul hB0]; omega
   have hs56 : (2 * q + 1) * a / b / (10 * T) < 2 ^ 56 := by
     rw [Nat.div_lt_iff_lt_mul hB0]; omega
   -- every candidate is `s`
@@ -333,7 +335,7 @@ theorem pure_correct {a b q : Nat} (S : Setup a b (10 ^ t.kappa.toNat) q) (e E0 
       · rw [hsub]; simpa using hD
     · left
       simp only [c2, if_false]
-      refine ⟨_, ⟨hs1, Nat.le_of_lt hlo, hhi, fun hodd => ⟨hlo, ?_⟩⟩, hall, hs56, rfl⟩
+      refine ⟨_, ⟨hs1, Nat.le_of_lt hlo, hhi, fun hodd => ⟨hlo, ?_⟩⟩, hall, hsp, rfl⟩
       apply Nat.lt_of_le_of_ne hhi
       intro he
       obtain ⟨h0, hdv⟩ := heq.mp he
@@ -371,7 +373,7 @@ theorem pure_correct {a b q : Nat} (S : Setup a b (10 ^ t.kappa.toNat) q) (e E0 
         by_cases hx : (2 * q - 1) * a / b % 2 = 1
         · left
           simp only [hx, decide_true, if_true]
-          exact ⟨_, hcand_odd hx, hall, hs56, rfl⟩
+          exact ⟨_, hcand_odd hx, hall, hsp, rfl⟩
         · right
           simp only [hx, decide_false, Bool.false_eq_true, if_false]
           obtain ⟨hle, hiff⟩ := heven (by omega)
@@ -392,14 +394,14 @@ theorem pure_correct {a b q : Nat} (S : Setup a b (10 ^ t.kappa.toNat) q) (e E0 
           simp only [hx, decide_true]
           rw [show (decide ¬(¬True ∧ ¬decide (b ∣ (2 * q - 1) * a) = true)) = true from by simp]
           simp only [if_true]
-          exact ⟨_, hcand_odd hx, hall, hs56, rfl⟩
+          exact ⟨_, hcand_odd hx, hall, hsp, rfl⟩
         · obtain ⟨hle, hiff⟩ := heven (by omega)
           by_cases hxi : b ∣ (2 * q - 1) * a
           · left
             simp only [hx, hxi, decide_false, decide_true]
             rw [show (decide ¬(¬false = true ∧ ¬True)) = true from by decide]
             simp only [if_true]
-            refine ⟨_, ⟨hs1, ?_, Nat.le_of_lt hhi, fun ho => by omega⟩, hall, hs56, rfl⟩
+            refine ⟨_, ⟨hs1, ?_, Nat.le_of_lt hhi, fun ho => by omega⟩, hall, hsp, rfl⟩
             exact Nat.le_of_eq (hiff.mpr hxi).symm
           · right
             simp only [hx, hxi, decide_false]
